@@ -276,6 +276,22 @@ pub fn run_traced(p: &Problem, settings: &DefaultSettings<f64>) -> (Result<Solve
     }
 }
 
+/// like `run_traced`, with a hook between construction and solve (e.g. to redirect the print target)
+pub fn run_traced_with(p: &Problem, settings: &DefaultSettings<f64>, prep: impl FnOnce(&mut DefaultSolver<f64>)) -> (Result<SolveResult, String>, Vec<IterEvent>, Vec<ConeT>) {
+    let st = settings.clone();
+    let mut solver = match catch(std::panic::AssertUnwindSafe(|| DefaultSolver::new(&p.P, &p.q, &p.A, &p.b, &p.cones, st))) {
+        Ok(s) => s,
+        Err(e) => return (Err(e), vec![], vec![]),
+    };
+    prep(&mut solver);
+    let cones = solver.data.cones.clone();
+    let (r, ev) = solve_traced(&mut solver);
+    match r {
+        Ok(()) => (Ok(extract(&solver, ev.clone())), ev, cones),
+        Err(e) => (Err(e), ev, cones),
+    }
+}
+
 pub fn new_solver(p: &Problem, settings: &DefaultSettings<f64>) -> Result<DefaultSolver<f64>, String> {
     let st = settings.clone();
     catch(std::panic::AssertUnwindSafe(|| DefaultSolver::new(&p.P, &p.q, &p.A, &p.b, &p.cones, st)))
